@@ -192,6 +192,16 @@ def check(ctx):
         classes = {}
         bad = []
         samples = []
+        # every refused run once more with the output sent to a file through the command's own option: the error has to
+        # survive the cmd layer's deferred close of that file
+        outfile = os.path.join(tmp, "out.txt")
+        more = []
+        for desc, argv, stdin in runs:
+            if "-o" in argv or "--outfile" in argv or argv[:2] == ["sam", "toPairAlign"] or argv[0] == "updown" and argv[1] == "topranking" and "-o" in argv:
+                continue
+            opt = "--fasta-out" if argv[:2] == ["sam", "toMultiAlign"] else "-o"
+            more.append((desc + " [output to a file via %s]" % opt, argv + [opt, outfile], stdin))
+        runs = runs + more
         for desc, argv, stdin in runs:
             cls, rc, out, err = cm.run_binary(binp, argv, stdin=stdin, timeout=TIMEOUT)
             classes[cls] = classes.get(cls, 0) + 1
